@@ -6,7 +6,7 @@
 From Coq Require Import String.
 From Coq Require Import List Arith Lia Bool ZArith Ring QArith Qcanon.
 From NV.Lib Require Import RingMat C05Lin.
-From NV.Generated Require Import PosRecipr KalmanReset.
+From NV.Generated Require Import PosRecipr KalmanReset PinvCalls.
 From NV.C05 Require Import Model Proofs Proofs2 Proofs3 Proofs4 Proofs5 Proofs6.
 Import ListNotations.
 Close Scope Qc_scope.
@@ -305,6 +305,23 @@ Proof.
 Qed.
 Print Assumptions kalman_Vb_data_independent.
 
+(* FINDING: the Kalman "OLS" fit is not invariant under rescaling of a design column (same column
+   space).  Witness, exact arithmetic: X = (1,1,1)', y = (1,2,3)': fitted value of the first scan
+   >= 0.999; the same design written as 2^-20 X: fitted value <= 0.001 (least squares: 2 in both cases).
+   Cause: the fixed prior INIT_VAR = 1e7, see kalman_ols_equals_batch_partial. *)
+Theorem kalman_column_scale_invariance_refuted :
+  let X := zmat [[1];[1];[1]]%Z in
+  let X' := [[qfrac 1 1048576];[qfrac 1 1048576];[qfrac 1 1048576]] in
+  let y := zvec [1;2;3]%Z in
+  match q_kf_fit 1 kf_init_var X y, q_kf_fit 1 kf_init_var X' y with
+  | Some s, Some s' =>
+      Qle_bool (999 # 1000) (this (nth 0 (q_mv X (kb s)) q0))
+      && Qle_bool (this (nth 0 (q_mv X' (kb s')) q0)) (1 # 1000)
+  | _, _ => false
+  end = true.
+Proof. vm_compute. reflexivity. Qed.
+Print Assumptions kalman_column_scale_invariance_refuted.
+
 (* ------------------------------------------------------------------ contrasts *)
 (* an estimable contrast c1 = X1'a and its image c2 = M'c1 under X2 = X1 M (same column space;
    P1, P2 the pinv oracles): same effect, same c cov c', same dispersion, same t - for every
@@ -408,6 +425,17 @@ Example rkf_accumulators_nonvacuous :
   existsb (String.eqb "Hssd"%string) rkf_accumulators && existsb (String.eqb "Hspp"%string) rkf_accumulators
   && existsb (String.eqb "Kfilt"%string) rkf_accumulators && existsb (String.eqb "ssd"%string) kf_accumulators = true.
 Proof. vm_compute. reflexivity. Qed.
+
+(* ------------------------------------------------------------------ the pinv oracle is called with its default cut-off *)
+(* both Python engines call pinv(<whitened design>) with one positional argument and no keyword
+   (Generated/PinvCalls.v, translated from labs/glm/glm.py and models/regression.py on every run): the
+   Moore-Penrose contract assumed by pinv_solves_normal_eq / ols_fit_optimal is the one numpy documents
+   for the default relative cut-off, valid for every full-rank design with cond < 1e15 whatever its norm *)
+Theorem pinv_called_with_default_cutoff :
+  forallb (fun s => Nat.eqb (snd (fst s)) 1 && Nat.eqb (snd s) 0) pinv_call_sites = true
+  /\ length pinv_call_sites = 2.
+Proof. split; vm_compute; reflexivity. Qed.
+Print Assumptions pinv_called_with_default_cutoff.
 
 (* ------------------------------------------------------------------ engine agreement *)
 (* FINDING: the Kalman engine of nipy.labs.glm returns s2 = RSS/n together with
